@@ -224,7 +224,7 @@ func runCase(t *testing.T, transport, op, point, cause string) (line string) {
 					_ = w.tp.Write([]byte{0xf0, 0xff, 0xff, 0xff, 0xff, 0x01}) // oversized frame: the connection is closed with an error
 				} else {
 					_ = w.udp.Process(nil, []byte{0xff, 0xff, 0xff}) // undecodable datagram: reported, the connection lives on
-					cancel()                                        // … so the call ends by its context
+					cancel()                                         // … so the call ends by its context
 				}
 			}
 			return time.Now()
@@ -725,6 +725,8 @@ func TestC09(t *testing.T) {
 				fmt.Fprintln(w, runQueueFull(t, f[1], f[4]))
 			} else if f[2] == "discover" {
 				fmt.Fprintln(w, runDiscover(f[4]))
+			} else if f[2] == "srvstop" && f[3] == "deadpeer" {
+				fmt.Fprintln(w, runDeadPeer())
 			} else if f[2] == "srvstop" {
 				ks := strings.TrimPrefix(f[3], "k")
 				slow := strings.HasSuffix(ks, "s")
